@@ -384,7 +384,13 @@ func c13Exec(ctx *core.Ctx, c c13Case) {
 			}
 		}
 	}
-	finish()
+	if deadlock != "" && deadlock != "inconclusive" {
+		// the handler is stuck for good: do not wait for it
+		p.Close()
+		rig.Abort()
+	} else {
+		finish()
+	}
 	ctx.Add("replies_parsed", int64(len(all)))
 	ctx.Add("backend_events", countBackendEvents(rig.Log.Events()))
 	if secondRan && deadlock == "" {
